@@ -198,6 +198,25 @@ func c10Perform(t *rapid.T, m *c10Mon, scope int, b Beh, msg string) {
 		m.reg(t, scope, 1, func() { t.Errorf("nonfatal in cleanup: %s", msg) })
 		m.useCtx(t, scope, 1)
 		t.Skip("skip " + msg)
+	case BRcpTwoPanickingCleanups:
+		m.reg(t, scope, 1, nil)
+		m.reg(t, scope, 2, nil)
+		m.useCtx(t, scope, 1)
+		m.reg(t, scope, 3, func() { panic("boom in cleanup 3 " + msg) })
+		m.reg(t, scope, 4, func() { panic("boom in cleanup 4 " + msg) })
+	case BRcpFatalAndSkipCleanups:
+		m.reg(t, scope, 1, nil)
+		m.reg(t, scope, 2, func() { t.Fatalf("fatal in cleanup: %s", msg) })
+		m.reg(t, scope, 3, nil)
+		m.reg(t, scope, 4, func() { t.SkipNow() })
+		m.useCtx(t, scope, 1)
+	case BRcpThreeAbnormalCleanups:
+		m.reg(t, scope, 1, nil)
+		m.reg(t, scope, 2, func() { t.Skip("skip in cleanup") })
+		m.reg(t, scope, 3, nil)
+		m.reg(t, scope, 4, func() { panic("boom in cleanup 4 " + msg) })
+		m.reg(t, scope, 5, func() { t.FailNow() })
+		m.reg(t, scope, 6, nil)
 	case BRcpGoroutineCleanup:
 		var wg sync.WaitGroup
 		wg.Add(1)
@@ -237,7 +256,7 @@ func c10Perform(t *rapid.T, m *c10Mon, scope int, b Beh, msg string) {
 	}
 }
 
-var c10Alpha = []Beh{BRcpNone, BRcp1, BRcp3, BRcpNested, BRcpPanicMid, BRcpErrorfMid, BRcpCtxInCleanup, BRcpThenFatal, BRcpThenSkip, BRcpThenPanic, BRcpThenErrorf, BRcpCustom, BRcpCustomSkip, BRcpGoroutineCleanup, BRcpCustomFatal, BRcpCustomPanic, BRcpCleanupSkips, BRcpSkipWithCleanupErrorf}
+var c10Alpha = []Beh{BRcpNone, BRcp1, BRcp3, BRcpNested, BRcpPanicMid, BRcpErrorfMid, BRcpCtxInCleanup, BRcpThenFatal, BRcpThenSkip, BRcpThenPanic, BRcpThenErrorf, BRcpCustom, BRcpCustomSkip, BRcpGoroutineCleanup, BRcpCustomFatal, BRcpCustomPanic, BRcpCleanupSkips, BRcpSkipWithCleanupErrorf, BRcpTwoPanickingCleanups, BRcpFatalAndSkipCleanups, BRcpThreeAbnormalCleanups}
 
 func c10Prog(m func() *c10Mon, T int16) *LazyProgram {
 	return &LazyProgram{
@@ -387,7 +406,7 @@ func init() {
 	Register(&Check{
 		ID:    "C10",
 		Level: "model_checking",
-		Rule: "E2 lazyprop: every invocation chooses one of 14 cleanup/context recipes (0-5 cleanups, nested registration, panicking / Errorf-ing cleanup, Context() in body, goroutine, cleanup and Custom, Custom retried after a skip, every way of ending); " +
+		Rule: "E2 lazyprop: every invocation chooses one of 23 cleanup/context recipes (0-5 cleanups, nested registration, panicking / Errorf-ing cleanup, Context() in body, goroutine, cleanup and Custom, Custom retried after a skip, every way of ending); " +
 			"recipe deviations on the first P inputs incl. minimization candidates, over whole failing-and-minimizing Check histories with and without fail file, plus Example and the MakeFuzz body. " +
 			"Oracle: bracket monitor over the global event trace (live context during the call, cancelled before any cleanup, each cleanup exactly once, LIFO, all done before the next invocation begins). " +
 			"distinct = distinct (class, #invocations, #scopes, #registrations); non-trivial = at least one cleanup was registered.",
